@@ -131,6 +131,7 @@ MUTANTS = {
         ("revert-tty-fix", "tatsu/packetz/packet.py", "        return '\\\\u001b' if m.group(1) == 'e' else m.group(0)\n\n    return JSON_ESCAPE_RE.sub(unescape, s)", "        return m.group(0)\n\n    return s.replace('\\\\e', '\\x1b')", "caught"),
         ("revert-at-key-fix", "tatsu/packetz/packet.py", "    s = AT_KEY_RE.sub(r'\"@\\1\":', s)\n", "", "caught"),
         ("revert-surrogate-fix", "tatsu/packetz/packet.py", "    value = LONE_SURROGATE_RE.sub(lambda m: f'\\\\u{ord(m.group()):04x}', value)\n", "", "caught"),
+        ("deliver-out-of-file-order", "tatsu/packetz/queue.py", "            while raw := q.readline():\n", "            for raw in sorted(q.readlines(), key=lambda b: (not b.endswith(b'\\n'), -len(b))):\n", "caught"),
         ("async-no-sleep", "tatsu/packetz/queue.py", "                await asyncio.sleep(0.01)\n", "                pass\n", "caught"),
         ("told-past-partial-on-eof", "tatsu/packetz/queue.py", """                if not raw.endswith(b"\\n"):
                     break
